@@ -15,6 +15,7 @@ import (
 	"encoding/json"
 	"fmt"
 	"math"
+	"io"
 	mrand "math/rand"
 	"net"
 	"os"
@@ -146,9 +147,22 @@ type vInst struct {
 	T      int64 // lapse second: TF certificates are valid through T, FT certificates from T+1
 	fv     []string
 	classes map[string]string
+	rmu    sync.Mutex
+	echo   bool // the proxy echoes extension requests (concurrency harness): Forward/Extension check the echo
+}
+
+// rint is a goroutine-safe in.rnd.Intn.
+func (in *vInst) rint(n int) int {
+	in.rmu.Lock()
+	defer in.rmu.Unlock()
+	return in.rnd.Intn(n)
 }
 
 var vCA = verifh.GenKey("ca", "ed25519")
+
+// vWrapConn, when set, wraps the connection handed to newShimAgent (used by the concurrency harness).
+var vWrapConn func(net.Conn) io.ReadWriteCloser
+var vInstMu sync.Mutex
 
 func keyKindFor(slot int) string {
 	return verifh.KeyKinds[(int(verifh.Seed())+slot)%len(verifh.KeyKinds)]
@@ -263,7 +277,11 @@ func newInst(u *vUniverse, init vState, hasTick bool, rnd *mrand.Rand) *vInst {
 		}
 	}
 	in.px = verifh.NewProxy(in.kr, mrand.New(mrand.NewSource(rnd.Int63())))
-	srv, err := newShimAgent(in.px.Client, in.noUp)
+	var conn io.ReadWriteCloser = in.px.Client
+	if vWrapConn != nil {
+		conn = vWrapConn(in.px.Client)
+	}
+	srv, err := newShimAgent(conn, in.noUp)
 	if err != nil {
 		panic(fmt.Sprintf("verif: newShimAgent failed on a healthy agent: %v", err))
 	}
@@ -401,17 +419,17 @@ func (in *vInst) exec(op, arg string) (res vRes) {
 		r := vRes{Ok: true, L1: l1, L2: l2}
 		return r
 	case "sign":
-		data := make([]byte, 16+in.rnd.Intn(48))
+		data := make([]byte, 16+in.rint(48))
 		rand.Read(data)
 		pk := in.pub(arg)
 		var sig *ssh.Signature
 		var err error
 		flags := agent.SignatureFlags(0)
-		if in.rnd.Intn(2) == 0 {
+		if in.rint(2) == 0 {
 			sig, err = s.Sign(pk, data)
 		} else {
 			if in.keyKind(arg) == "rsa2048" {
-				flags = []agent.SignatureFlags{0, agent.SignatureFlagRsaSha256, agent.SignatureFlagRsaSha512}[in.rnd.Intn(3)]
+				flags = []agent.SignatureFlags{0, agent.SignatureFlagRsaSha256, agent.SignatureFlagRsaSha512}[in.rint(3)]
 			}
 			sig, err = s.SignWithFlags(pk, data, flags)
 		}
@@ -458,8 +476,8 @@ func (in *vInst) exec(op, arg string) (res vRes) {
 		return r
 	case "add":
 		ak := in.addedKey(arg)
-		if in.rnd.Intn(3) == 0 {
-			ak.LifetimeSecs = 3600 + uint32(in.rnd.Intn(1000))
+		if in.rint(3) == 0 {
+			ak.LifetimeSecs = 3600 + uint32(in.rint(1000))
 		}
 		return vRes{Ok: s.Add(ak) == nil}
 	case "addhard":
@@ -483,18 +501,42 @@ func (in *vInst) exec(op, arg string) (res vRes) {
 		if arg == "list" {
 			req = []byte{11}
 		} else {
-			body := make([]byte, in.rnd.Intn(200))
-			in.rnd.Read(body)
+			body := make([]byte, 8+in.rint(200))
+			rand.Read(body)
 			req = append([]byte{27, 0, 0, 0, 7, 'v', 'e', 'r', 'i', 'f', '@', 'x'}, body...)
 		}
 		resp, err := s.Forward(req)
 		if err != nil {
 			return vRes{}
 		}
-		fr := in.px.Frames()
 		by := "altered"
-		if len(fr) == 1 && bytes.Equal(fr[0].Req, req) && bytes.Equal(fr[0].Reply, resp) {
-			by = "relayed"
+		if in.echo {
+			// the proxy answers an extension request with 29 || request: the caller must get its own echo
+			if arg == "list" || (len(resp) == 1+len(req) && resp[0] == 29 && bytes.Equal(resp[1:], req)) {
+				by = "relayed"
+			}
+		} else {
+			fr := in.px.Frames()
+			if len(fr) == 1 && bytes.Equal(fr[0].Req, req) && bytes.Equal(fr[0].Reply, resp) {
+				by = "relayed"
+			}
+		}
+		return vRes{Ok: true, By: by}
+	case "extension":
+		body := make([]byte, 8+in.rint(100))
+		rand.Read(body)
+		resp, err := s.Extension("verif@x", body)
+		if err != nil {
+			return vRes{}
+		}
+		by := "relayed"
+		if in.echo {
+			// 29 || marshalled request (code 27, string type, string contents)
+			// 29 || marshalled request (code 27, string type, contents as the rest of the packet)
+			want := append([]byte{29, 27, 0, 0, 0, 7, 'v', 'e', 'r', 'i', 'f', '@', 'x'}, body...)
+			if !bytes.Equal(resp, want) {
+				by = "altered"
+			}
 		}
 		return vRes{Ok: true, By: by}
 	// ---- environment actions, applied to the harness-owned underlying agent directly
